@@ -11,6 +11,10 @@ Defects (net["defects"] lists what was injected, net["blunders"] the expected ab
   dup_dir       a station whose only directions go to one and the same target (twice)
   single_dir_passive  a station with one direction to a usable target and one to a target that is not usable (unknown
                 id / point without coordinates): the passive direction's target must not count as a second target
+  rep_dir       a direction set in which targets are read REPEATEDLY (two rounds / closing the horizon): reading
+                patterns A A B, A B A, B A A, A A B B, A B C A, A A B C over usable targets, with a blunder in the
+                FIRST or in a LATER reading of the repeated target or in the reading of another target (or none):
+                the set stays iff at least two distinct targets keep an active reading
   unknown_to    an observation to an id that is not a point of the network
   angle_fs_missing  an angle whose foresight (or backsight) target has no coordinates
   blunder       observation value shifted so that the positional misclosure is f*tol_abs
@@ -115,8 +119,8 @@ def make_case(rng, acord=True, dim=None, want=None):
                 it["stdev"] = rng.choice(STDEVS)
     ids = list(net["points"])
     defects = want if want is not None else rng.sample(
-        ["isolated", "one_element", "single_dir", "dup_dir", "single_dir_passive", "unknown_to", "angle_fs_missing", "blunder", "blunder",
-         "blunder2", "blunder_w"],
+        ["isolated", "one_element", "single_dir", "dup_dir", "single_dir_passive", "rep_dir", "unknown_to", "angle_fs_missing", "blunder",
+         "blunder", "blunder2", "blunder_w"],
         rng.randint(0, 3))
     for d in defects:
         if d == "isolated":
@@ -181,6 +185,46 @@ def make_case(rng, acord=True, dim=None, want=None):
                 net["points"][tgt] = p
             st["items"].insert(rng.randint(0, len(st["items"])), {"t": "direction", "to": tgt, "val": rng.uniform(0, 400), "stdev": 10})
             net["defects"].append(("single_dir_passive", st["from"], tgt))
+        elif d == "rep_dir":
+            P = net["points"]
+            cands = []
+            for st in station_items(net):
+                if any(it.get("blunder") is not None for it in st["items"]):
+                    continue
+                ds = [it for it in st["items"] if it["t"] == "direction" and it["to"] in P and pstate(P[it["to"]])["axy"]]
+                if len({it["to"] for it in ds}) >= 2 and pstate(P[st["from"]])["axy"]:
+                    cands.append((st, ds))
+            if not cands:
+                continue
+            st, ds = rng.choice(cands)
+            byto = {}
+            for it in ds:
+                byto.setdefault(it["to"], it)
+            tg = list(byto)
+            rng.shuffle(tg)
+            pats = ["AAB", "ABA", "BAA", "AABB", "AAB", "ABA"] + (["ABCA", "AABC", "BAAC"] if len(tg) >= 3 else [])
+            pat = rng.choice(pats)
+            name = {"A": tg[0], "B": tg[1], "C": tg[2] if len(tg) >= 3 else tg[1]}
+            reads = []
+            for ch in pat:
+                it = dict(byto[name[ch]])
+                it.pop("blunder", None)
+                reads.append(it)
+            # which reading is blundered: the first A, a later A, the (first) B, or none
+            where = rng.choice(["firstA", "firstA", "laterA", "B", "none"])
+            idxA = [i for i, ch in enumerate(pat) if ch == "A"]
+            k = {"firstA": idxA[0], "laterA": idxA[-1], "B": pat.index("B"), "none": None}[where]
+            st["items"] = reads + [it for it in st["items"] if it["t"] != "direction"]
+            for it in st["items"]:
+                it["stdev"] = 10              # = sigma-apr: keeps the known finding C14-F1 (weights) out of this family
+            if k is not None:
+                it = st["items"][k]
+                f = rng.choice([3.0, 30.0, 3.0, 1.1, 0.3])
+                it["val"] = (it["val"] + rng.choice([-1, 1]) * positional_to_value_shift(net, st, it, f * tol)) % 400.0
+                it["blunder"] = f
+                net["blunders"].append({"from": st["from"], "t": "direction", "to": it["to"], "fs": None, "f": f,
+                                        "stdev": it.get("stdev"), "reading": k})
+            net["defects"].append(("rep_dir", st["from"], pat, where))
         elif d == "unknown_to":
             st = rng.choice(list(station_items(net)))
             st["items"].append({"t": "distance", "to": "NOPOINT", "val": 100.0, "stdev": 10})
